@@ -661,7 +661,87 @@ def r97(db, ctx):
         ctx.ok('R9.7', f, 'frequencies[idx(s)] = counts[idx(s)] / sum(counts) for every s in symbols(); zero total rejected', ['R5.1 symbols() covers the alphabet'])
 
 
+def r99(db, ctx):
+    ctx.rule('R9.9', 'to_freq: cell (i, j) := count(i, j) + pseudocount(j) for every row i and every column j of the row, then every cell of row i is divided '
+                     'by the sum over the whole row i of those values (frequency = (count + pseudocount) / row total)')
+    to_freq_form(db, ctx, 'R9.9', 'lightmotif::pwm::CountMatrix::to_freq', ('fld', ('p', 1), 'data'))
+
+
+def to_freq_form(db, ctx, rid, path, data):
+    from lm import reduce as RD, iteralg as IA
+    try:
+        f = db.fn(path)
+    except KeyError:
+        ctx.fail(rid, path, 'anchor', 'reason=anchor-missing')
+        return
+    R = X.Rec(f)
+    C = RD.RCanon(db, f, R)
+    sts = [(s_, C.canon(s_['target']), C.canon(s_['value'])) for s_ in X.stores(f, R)]
+    # stores made by a `for_each` closure count like those of the loop it stands for
+    sts += [(dict(block=fs_['block'], span=fs_.get('span')), fs_['target'], fs_['value']) for fs_ in RD.foreach_stores(db, f, R, C)]
+    cells = [(s_, t_, v_) for s_, t_, v_ in sts if m(('at', ('at', '$M', '$i'), '$j'), t_) is not None]
+    fills = [x for x in cells if x[2][0] == 'bin' and x[2][1] == 'Add']
+    divs = [x for x in cells if x[2][0] == 'bin' and x[2][1] == 'Div']
+    if len(cells) != 2 or len(fills) != 1 or len(divs) != 1:
+        ctx.fail(rid, f, 'row construction', f'reason=unrecognised-shape: {len(cells)} cell stores ({len(fills)} additions, {len(divs)} divisions); expected one `count + pseudocount` and one `/ row total`')
+        return
+    probs = []
+    (sf, tf, vf), (sd, td, vd) = fills[0], divs[0]
+    bf = m(('at', ('at', '$M', '$i'), '$j'), tf)
+    M, pi, pj = bf['$M'], bf['$i'], bf['$j']
+    PC = ('at', ('call~', 'Pseudocounts::counts', ('$p',)), '$j3')
+    want = None
+    for cell_ in (('cast', ('at', ('at', data, '$i2'), '$j2'), '_', '_'), ('at', ('at', data, '$i2'), '$j2')):
+        want = want or m(('bin', 'Add', cell_, PC), vf) or m(('bin', 'Add', PC, cell_), vf)
+    if want is None or want['$i2'] != pi or want['$j2'] != pj or want['$j3'] != pj:
+        probs.append(f'cell ({X.show(pi, 20)}, {X.show(pj, 20)}) is assigned {X.show(vf, 140)}, expected count of the same row and column plus the pseudocount of the same column')
+    ei = C.extents.get(pi[1]) if IA.is_pos(pi) else None
+    ej = C.extents.get(pj[1]) if IA.is_pos(pj) else None
+    rows_ok = bool(ei) and len(ei) >= 1 and all((c_[0] == 'sub' and c_[2] == ('k', 0) and common.is_call_on(c_[1], 'DenseMatrix::rows', data)) or c_ == ('rows', data)
+                                                  or (c_[0] == 'rows' and c_[1] == M) for c_ in ei)
+    is_counts = lambda x_: x_[0] == 'call' and x_[1].endswith('Pseudocounts::counts')      # &GenericArray<f32, K>: as long as a row
+    cols_ok = bool(ej) and all((c_[0] == 'len' and (c_[1] in (('at', data, pi), ('at', M, pi)) or is_counts(c_[1]))) or
+                               (c_[0] == 'sub' and c_[2] == ('k', 0) and common.is_usize_const(c_[1], 'K')) for c_ in ej) and \
+        any(c_[0] != 'len' or not is_counts(c_[1]) for c_ in ej)
+    if not rows_ok:
+        probs.append(f'the rows filled are {ei}, expected every row of self.data')
+    if not cols_ok:
+        probs.append(f'the columns filled are {ej}, expected every column of the row')
+    # the new matrix has as many rows as self.data
+    if M[0] == 'v':
+        ds = f.defs().get(M[1], [])
+        dn = norm(R.call(ds[0][2])) if len(ds) == 1 and ds[0][1] == 'term' else None
+        mn = m(('call~', 'DenseMatrix::new', (('call~', ('DenseMatrix::rows', 'CountMatrix::len'), ('$x',)),)), dn) if dn is not None else None
+        if mn is None or norm(mn['$x']) not in (data, ('p', 1)):
+            probs.append('the frequency matrix is not created with self.data.rows() rows')
+    # division by the row total
+    bd = m(('at', ('at', '$M2', '$i4'), '$k'), td)
+    dv = m(('bin', 'Div', ('at', ('at', '$M3', '$i5'), '$k2'), '$tot'), vd)
+    if bd is None or dv is None or bd['$M2'] != M or dv['$M3'] != M or bd['$i4'] != pi or dv['$i5'] != pi or bd['$k'] != dv['$k2']:
+        probs.append(f'the normalising store {X.show(td, 60)} := {X.show(vd, 120)} does not divide each cell of the same row of the new matrix by one total')
+    else:
+        ek = C.extents.get(bd['$k'][1]) if IA.is_pos(bd['$k']) else None
+        if not (ek and all(c_ == ('len', ('at', M, pi)) or (c_[0] == 'sub' and c_[2] == ('k', 0) and common.is_usize_const(c_[1], 'K')) for c_ in ek)):
+            probs.append(f'the cells divided are {ek}, expected the whole row')
+        tot = RD.of_expr(C, dv['$tot'])
+        row = ('at', M, pi)
+        ok_tot = tot is not None and tot['op'] == 'add' and tot.get('how') == 'sum' and norm(tot['init']) == ('k', 0) and tot.get('L') is not None and C.canon(tot['term']) == ('at', row, ('pos', tot['L'])) and \
+            tot['extents'] in ([('len', row)],)
+        if not ok_tot:
+            probs.append(f'the divisor {X.show(dv["$tot"], 120)} is not the sum over the whole row of the new matrix')
+        # the total is taken after the row has been filled and before it is divided
+        Ls = [L_ for L_ in f.loops() if sf['block'] in L_['body']]
+        Lf = min(Ls, key=lambda L_: len(L_['body'])) if Ls else None
+        if Lf is None or not f.dominates(Lf['header'], sd['block']) or sd['block'] in Lf['body']:
+            probs.append('the row is not filled (by a completed loop) before it is normalised')
+    if probs:
+        ctx.fail(rid, f, 'frequency = (count + pseudocount) / row total', '; '.join(probs))
+    else:
+        ctx.ok(rid, f, 'freq[i][j] = (count[i][j] + pseudo[j]) / sum_j (count[i][j] + pseudo[j]) for every i, j', ['same row / column on both sides', 'total over the whole row'])
+
+
 def run(db, ctx):
+    r99(db, ctx)
     r91(db, ctx)
     r92(db, ctx)
     r93(db, ctx)
